@@ -23,6 +23,11 @@ try:
                                                'contract_loop_shapes.json')))
 except Exception:      # noqa
     LOOP_SHAPES = {}
+try:
+    PARAM_LISTS = _json.load(open(os.path.join(os.path.dirname(os.path.dirname(os.path.abspath(__file__))),
+                                               'contract_param_lists.json')))
+except Exception:      # noqa
+    PARAM_LISTS = {}
 CVC5_TIMEOUT_MS = int(os.environ.get('VERIF_CVC5_TIMEOUT_MS', '10000'))
 CVC5_BIN = '/usr/bin/cvc5'
 
@@ -83,8 +88,26 @@ def generate(c, registry=REGISTRY):
     params = [x.arg for x in a.posonlyargs + a.args + a.kwonlyargs]
     if a.vararg or a.kwarg:
         raise Unsupported("*args / **kwargs")
+    # parameters added after the contract was written (guard G-S records the parameter list): the
+    # property's quantifier does not range over them and no caller under contract passes them, so an
+    # added parameter with a literal default is fixed to that default
+    known_params = PARAM_LISTS.get(c.qualname)
+    defaults = {}
+    pos = a.posonlyargs + a.args
+    for arg, d in zip(pos[len(pos) - len(a.defaults):], a.defaults):
+        defaults[arg.arg] = d
+    for arg, d in zip(a.kwonlyargs, a.kw_defaults):
+        if d is not None:
+            defaults[arg.arg] = d
     for p in params:
         ty = c.param_type(p)
+        if ty is None and known_params is not None and p not in known_params and p != 'self' \
+                and isinstance(defaults.get(p), ast.Constant) and os.environ.get('VERIF_NO_SHAPE_GUARD') != '1':
+            v = ev.eval(state, defaults[p])
+            state.bind(p, v)
+            ctx.notes.append(f"parameter {p} did not exist when the contract was written: fixed to its "
+                             f"default {ast.unparse(defaults[p])}")
+            continue
         if ty is None:
             if lenient:
                 ty = T.OPAQUE
